@@ -340,6 +340,16 @@ def run_check(check, tier, seed, out=sys.stdout):
     for kid, kh in sorted(known_hit.items()):
         lines.append('KNOWN-FINDING: property=%s %s [%s] (seen %d times in this run)' % (
             check.ID, kh['entry']['description'], kid, kh['count']))
+        if os.environ.get('VERIF_WRITE_KNOWN_REPLAYS'):
+            # maintenance only (tools/refresh_known.py): store a replay of a listed finding
+            sig0 = sorted(kh['sigs'])[0]
+            idx0, v0, plan0 = agg['violations'][sig0]['first']
+            if plan0 is not None:
+                d0 = os.path.join(boot.VERIF, 'known_replays')
+                os.makedirs(d0, exist_ok=True)
+                with open(os.path.join(d0, kid + '.auto.json'), 'w') as f0:
+                    json.dump({'property': check.ID, 'signature': sig0, 'violation': v0,
+                               'plan': plan0}, f0, default=str)
         # a listed finding is a narrow class with a measured base rate; the same signature
         # occurring an order of magnitude more often is a different violation
         mr = kh['entry'].get('max_rate')
